@@ -1013,9 +1013,48 @@ def run_value_case(orc, inp):
         orc.month(*v)
 
 
+def check_encoder_uses_current_value(ctx):
+    """the encoded text is a function of the value the object holds NOW: after the public value attribute is
+    reassigned (the `event['DTSTART'].dt = ...` idiom), to_ical() equals that of a fresh object for the new value,
+    also when the object has been encoded before; and encoding one value does not change how another is encoded"""
+    from datetime import date, datetime, time, timedelta, timezone
+    from icalendar.prop import vDDDTypes, vDate, vDatetime, vDuration, vUTCOffset
+    vals = [date(2020, 1, 2), datetime(2020, 1, 2, 3, 4, 5), datetime(2020, 1, 2, 3, 4, 5, tzinfo=timezone.utc),
+            timedelta(days=1, hours=2), timedelta(seconds=-30), time(1, 2, 3),
+            (datetime(2020, 1, 1, 10), timedelta(hours=1))]
+    for a in vals:
+        for b in vals:
+            if a is b:
+                continue
+            ctx.evaluated(('reassign', repr(a), repr(b)))
+            try:
+                o = vDDDTypes(a)
+                o.to_ical()
+                o.dt = b
+                got, want = o.to_ical(), vDDDTypes(b).to_ical()
+            except Exception as e:  # noqa: BLE001
+                ctx.violation('stale-encoding', {'value': repr(a), 'then': repr(b)}, f'{type(e).__name__}: {e}')
+                continue
+            if got != want:
+                ctx.violation('stale-encoding', {'value': repr(a), 'then': repr(b)},
+                              f'vDDDTypes({a!r}) encoded, then .dt = {b!r}: to_ical() gives {got!r}, a fresh object gives {want!r}')
+    for cls, attr, a, b in ((vDate, 'dt', date(2020, 1, 2), date(1999, 12, 31)),
+                            (vDatetime, 'dt', datetime(2020, 1, 2, 3, 4, 5), datetime(1999, 12, 31, 23, 59, 59)),
+                            (vDuration, 'td', timedelta(hours=1), timedelta(days=-2)),
+                            (vUTCOffset, 'td', timedelta(hours=1), timedelta(hours=-5, minutes=-30))):
+        ctx.evaluated(('reassign', cls.__name__))
+        o = cls(a)
+        o.to_ical()
+        setattr(o, attr, b)
+        if o.to_ical() != cls(b).to_ical():
+            ctx.violation('stale-encoding', {'value': repr(a), 'then': repr(b)},
+                          f'{cls.__name__}: after reassigning .{attr} to_ical() gives {o.to_ical()!r}, expected {cls(b).to_ical()!r}')
+
+
 def oracle(ctx):
     import struct
     from harness import gen
+    check_encoder_uses_current_value(ctx)
     rng = ctx.rng
     orc = Oracle(ctx)
     ev = ctx.evaluated
